@@ -167,6 +167,8 @@ import BGV
 #print axioms BGV.C13_comment_skipped
 #print axioms BGV.C13_stoi_showNat
 #print axioms BGV.C13_written_line
+#print axioms BGV.C13_dir_roundtrip
+#print axioms BGV.C13_und_roundtrip
 
 -- C14
 #print axioms BGV.C14_layout
